@@ -110,6 +110,57 @@ def _value(kind, shape):
     return (-np.arange(1, n + 1, dtype=np.int64)).reshape(shape)
 
 
+def _negative_start_elements(view, da, ref, allowed, wrapped, exts, ctx, case, win, bench, shape):
+    """single elements through a window that begins before the array: refused, or the element the NumPy reading
+    of the window (counted from the end / clipped) has at that place - never any other"""
+    for k in sorted({0, 1, max(exts[0] - 1, 0), -1}):
+        try:
+            got = np.asarray(view[k])
+        except Exception:  # noqa
+            continue
+        if got.size == 0:
+            continue
+        ok = False
+        for w in (wrapped, allowed):
+            if w.shape[0] and -w.shape[0] <= k < w.shape[0]:
+                want = np.asarray(w[k])
+                if want.size == got.size and np.array_equal(got.reshape(want.shape), want):
+                    ok = True
+        if not ok:
+            ctx.violation("C06/view-get/negative-start-foreign-elements/int-index", case,
+                          {"index": k, "got": got.ravel().tolist()[:6], "window": win})
+            break
+    # a write through it: refused, or confined to that window
+    if ref.size == 0 or ref.dtype.kind not in "fiu":
+        return
+    try:
+        view[0] = (ref.max() + 7)
+    except Exception:  # noqa
+        return
+    bench.dirty.add(tuple(shape))
+    try:
+        now = np.asarray(da[:]).reshape(ref.shape)
+    except Exception:  # noqa
+        return
+    changed = now != ref
+    if changed.any():
+        ok = False
+        for sl in (tuple(slice(s, s + x) for s, x in zip([w[0] for w in win], exts)),
+                   tuple(slice(max(s, 0), max(s + x, 0)) for s, x in zip([w[0] for w in win], exts))):
+            mask = np.zeros(ref.shape, dtype=bool)
+            try:
+                sub = mask[sl]
+                if sub.shape[0]:
+                    sub[0] = True
+            except Exception:  # noqa
+                continue
+            if not (changed & ~mask).any():
+                ok = True
+        if not ok:
+            ctx.violation("C06/view-set/negative-start-foreign-elements", case,
+                          {"window": win, "changed": int(changed.sum())})
+
+
 def run_case(case, ctx, bench):
     """case = {"shape":[..], "win": null | [[start,extent],..], "e": expr, "op":"get"|"set", "v":"scalar"|"exact"}"""
     nixio = bench.nixio
@@ -178,10 +229,10 @@ def run_case(case, ctx, bench):
             try:
                 got = np.asarray(view[:])
             except Exception:
-                ctx.case(case, nontrivial_expr(e), classes)
-                return
+                got = np.zeros(0)
             allowed = ref[tuple(slice(max(s, 0), max(s + x, 0)) for s, x in zip(starts, exts))]
             wrapped = ref[tuple(slice(s, s + x) for s, x in zip(starts, exts))]
+            _negative_start_elements(view, da, ref, allowed, wrapped, exts, ctx, case, win, bench, shape)
             if got.size and not (got.shape == allowed.shape and np.array_equal(got, allowed)) \
                     and not (got.shape == wrapped.shape and np.array_equal(got, wrapped)):
                 ctx.violation("C06/view-get/negative-start-foreign-elements", case,
